@@ -1898,6 +1898,13 @@ class Emitter:
             return vals[0]
         if t.base in SCALARS.values() and not t.dims and not vals:
             return "0"
+        if len(vals) == 1 and not t.dims and not t.ptr and t.base.startswith("xc_"):
+            # T{x} of a boundary (shim) value type whose single initialiser already is such a value (std::string{string_view} through its conversion)
+            try:
+                if self.ctype(n["inner"][0]["type"]).base == t.base:
+                    return vals[0]
+            except ExtractionError:
+                pass
         return "(%s){%s}" % (t.text(), ", ".join(vals) if vals else "0")
 
     def x_CXXThrowExpr(self, n):
